@@ -53,6 +53,8 @@ def execute(case):
     stopped_since = {}        # name -> (time, len(spawn_log)) after a stop
     tracked = {}              # req.idx -> (cmd, props)
     sent_deaths = {}          # req.idx -> len(death_log) when it was sent
+    sent_nsig = {}            # req.idx -> len(signal_log) when it was sent
+    pre_nsig = [0]
     snapshots = {}            # req.idx -> kernel facts at completion
     done = set()
     nontrivial = [False]
@@ -71,6 +73,9 @@ def execute(case):
                 "overtaken": bool(later_starter(req)) and cmd != 'quit'}
         ndeaths = sent_deaths[req.idx]
         snap["early_dead"] = set(d["pid"] for d in k.death_log[:ndeaths])
+        snap["early_sigkilled"] = set(
+            e["pid"] for e in k.signal_log[:sent_nsig[req.idx]]
+            if e["sig"] == 9 and e["delivered"])
         for name in targets:
             before = req.t if cmd == 'restart' else None
             pids = _pids_of(k, name, before)
@@ -136,14 +141,22 @@ def execute(case):
             if bad_z and cmd != 'quit':
                 # (after quit the daemon process is gone: its zombies are
                 # reaped by init, nothing to observe)
+                f06 = [p for p in bad_z if p in snap["early_sigkilled"]]
+                if f06:
+                    viols.append(Violation(
+                        'C02:zombie:%s:sigkilled-by-earlier-operation' % cmd,
+                        '%s of %s completed at t=%.3f but workers %r, which '
+                        'an earlier operation had SIGKILLed and dropped '
+                        'before this request was sent, are unreaped zombies'
+                        % (cmd, name, snap["t"], f06)))
+                bad_z = [p for p in bad_z if p not in f06]
                 pre = [p for p in bad_z if p in snap["early_dead"]]
                 dur = [p for p in bad_z if p not in pre]
                 for p_ in pre:
                     cause = k.procs[p_].cause
                     viols.append(Violation(
                         'C02:zombie:%s:died-before-the-request:%s' % (
-                            cmd, 'sigkilled-by-earlier-operation'
-                            if cause == 'sigkill' else cause),
+                            cmd, cause),
                         '%s of %s completed at t=%.3f but worker %r, which '
                         'died (%s) before the request was sent, is an '
                         'unreaped zombie' % (cmd, name, snap["t"], p_,
@@ -203,6 +216,7 @@ def execute(case):
     def before_op(h_, i, op):
         k.apply_due()
         pre_deaths[0] = len(k.death_log)
+        pre_nsig[0] = len(k.signal_log)
 
     def on_op(h_, i, op):
         if op[0] == 'req':
@@ -217,6 +231,7 @@ def execute(case):
             if cmd in STOPPERS:
                 tracked[req.idx] = (cmd, props)
                 sent_deaths[req.idx] = pre_deaths[0]
+                sent_nsig[req.idx] = pre_nsig[0]
                 if req.reply() is not None and props.get("waiting") and \
                         req.idx not in snapshots:
                     snapshot(req)
